@@ -85,6 +85,16 @@ void check_C05(Src &s, Ctx &ctx) {
         B.setDomainTransform(ta, tb);
         ctx.log("twin transform a=[" + joind(ta) + "] b=[" + joind(tb) + "]");
     }
+    // one case in three reaches the transform of B through a history of transforms: another box is set first, the grid is used (differentiate,
+    // weights), then the final box replaces it through the raw-array overload or after clearDomainTransform(): nothing cached may survive
+    if (s.chance(1, 3) && B.getNumLoaded() > 0) {
+        std::vector<double> oa, ob; for (int j = 0; j < d; j++) { auto ab = (dom == maps::DLAGUERRE || dom == maps::DHERMITE) ? UNBOUNDED_AB[(size_t)(j + 1) % UNBOUNDED_AB.size()] : BOUNDED_AB[(size_t)(j + 3) % BOUNDED_AB.size()]; oa.push_back(ab.first); ob.push_back(ab.second + 0.5); }
+        B.setDomainTransform(oa, ob);
+        { std::vector<double> x0((size_t)d), jac; auto lp = B.getLoadedPoints(); for (int j = 0; j < d; j++) x0[(size_t)j] = lp[(size_t)j]; B.differentiate(x0, jac); (void)B.getDifferentiationWeights(x0); std::vector<double> y; B.evaluate(x0, y); }
+        int how = s.pick(3);
+        if (how == 0) B.setDomainTransform(ta.data(), tb.data()); else if (how == 1) { B.clearDomainTransform(); B.setDomainTransform(ta, tb); } else B.setDomainTransform(ta, tb);
+        ctx.log(std::string("B reached its transform after using another one (") + (how == 0 ? "raw-array overload" : how == 1 ? "clear + set" : "vector overload") + ")"); ctx.label("transform:re-set");
+    }
     const int n = A.getNumLoaded();
     VF_REQUIRE("C05.setup", n > 0 && B.getNumLoaded() == n, "no loaded values after the history");
     std::vector<double> PA = A.getLoadedPoints();   // canonical nodes
